@@ -224,6 +224,9 @@ def c20_scenario(bins, idx, nt, flt, rng, heavy=False):
                     n = rng.choice([600, 1500, 4000])
                     for s in ("stdout", "stderr"):
                         steps.append({"op": "out", "stream": s, "text": "".join("%s %s %s heavy %d\n" % (t, c, s, i) for i in range(n))})
+                    if t == tnames[0] and c == cmds[0]:
+                        # one very long text line (several MiB) between short ones
+                        steps.append({"op": "out", "text": "%s %s before long\n%s\n%s %s after long\n" % (t, c, "L" * (3 * 1024 * 1024 + 17), t, c)})
                 for burst in range(rng.randint(1, 3)):
                     for i in range(rng.randint(1, 6)):
                         steps.append({"op": "out", "text": "%s %s out b%d l%d %s\n" % (t, c, burst, i, "x" * rng.randint(0, 60))})
